@@ -1,23 +1,23 @@
-\* quick: two read transactions and one writer interleaved at operation granularity
+\* power loss: a crash after any I/O call also cuts every block file back to its last Sync
 INIT Init
 NEXT Next
 CONSTANTS
-  KeyOrder <- K1
-  ValSet <- V2
+  KeyOrder <- K0
+  ValSet <- V1
   NameOrder <- N0
   MaxDepth = 0
-  BlockOrder <- B0
+  BlockOrder <- B2
   RawLen <- MC_RawLen
   Limit = 186
   PruneTarget = 186
   MaxTx = 2
-  MaxOps = 1
-  Readers <- R2
-  MaxReads = 2
+  MaxOps = 2
+  Readers <- NoReaders
+  MaxReads = 0
   MaxFaults = 0
-  CrashMode = "none"
-  PowerLoss = FALSE
-  MaxCrash = 0
+  CrashMode = "steps"
+  PowerLoss = TRUE
+  MaxCrash = 1
   FlushModes <- FlushBoth
   AllowRestart = FALSE
   MaxCur = 0
